@@ -32,12 +32,12 @@ using VS = rlbox_vsbx_sandbox<MCfg>;
 using MP = typename MCfg::P;
 template<typename T> using MG = ref::guest_t<MCfg, T>;
 
-static uint64_t n_trees = 0, n_trace_ok = 0, n_abort_runs = 0, n_timing_ok = 0, n_caught = 0;
+static uint64_t n_trees = 0, n_trace_ok = 0, n_abort_runs = 0, n_timing_ok = 0, n_caught = 0, n_dtor_unwind = 0;
 static void report(const char* backend, const char* what, const char* cls, const std::string& d) { mon::violation(mon::fmt("C19/%s/%s/%s", backend, what, cls), d); }
 
 // ------------------------------------------------------------------ the tree
-struct InvNode { int sbx; std::vector<int> cbs; };  // tokens of the callbacks the guest makes
-struct CbNode { std::vector<int> invs; int chg = -1; bool catches = false; }; // invocations made from the callback body; chg >= 0: the body first switches its sandbox's transition state
+struct InvNode { int sbx; std::vector<int> cbs; bool dtor = false; };  // tokens of the callbacks the guest makes; dtor: made from a destructor
+struct CbNode { std::vector<int> invs; int chg = -1; bool catches = false; int dtor_inv = -1; }; // invocations made from the callback body; chg >= 0: the body first switches its sandbox's transition state
 static std::vector<InvNode> g_inv;
 static std::vector<CbNode> g_cb;
 enum Phase { P_NONE, P_ARG, P_BODY, P_RESULT };
@@ -51,6 +51,13 @@ static int gen_cb(mon::Rng& rng, int depth, int& budget)
   g_cb.push_back({});
   if (rng.below(4) == 0) g_cb[tok].chg = 1 + static_cast<int>(rng.below(62));
   g_cb[tok].catches = rng.below(3) == 0; // this callback body catches an abort of the invocations it makes and carries on
+  if (rng.below(4) == 0 && budget > 0) {
+    // a local object of the callback body whose destructor makes a (leaf, never failing) invocation: it runs on normal return
+    // and also while an abort is unwinding through the body
+    g_cb[tok].dtor_inv = static_cast<int>(g_inv.size());
+    g_inv.push_back({ static_cast<int>(rng.below(2)), {}, true });
+    budget--;
+  }
   if (depth > 0) {
     int n = rng.below(10) < 7 ? 1 + rng.below(2) : 0;
     for (int i = 0; i < n && budget > 0; i++) { int id = gen_inv(rng, depth - 1, budget); g_cb[tok].invs.push_back(id); }
@@ -102,6 +109,7 @@ template<typename B, int Me>
 static tainted<long, B> the_cb(rlbox_sandbox<B>&, tainted<int, B> tok)
 {
   int t = tok.UNSAFE_unverified();
+  struct DtorInv { int id; ~DtorInv() { if (id >= 0) { if (std::uncaught_exceptions() > 0) n_dtor_unwind++; run_inv<B>(id); } } } dtor_guard{ g_cb[t].dtor_inv };
   if (g_abort_phase == P_BODY && g_abort_at == t) rlbox::detail::dynamic_check(false, "injected abort in callback body");
   if (g_cb[t].chg >= 0) Ctx<B>::box[Me]->set_transition_state(&g_state_pool[Me][g_cb[t].chg]);
   for (int id : g_cb[t].invs) {
@@ -143,6 +151,7 @@ template<typename B>
 static void sim_cb(int tok, int s, std::vector<c19::Ev>& out, void* key[2])
 {
   out.push_back({ false, 1, "", key[s], sim_state(s) });
+  bool dtor_done = false;
   try {
     if (g_abort_phase == P_BODY && g_abort_at == tok) throw Abort{};
     if (g_cb[tok].chg >= 0) g_sim_state[s] = g_cb[tok].chg;
@@ -150,8 +159,11 @@ static void sim_cb(int tok, int s, std::vector<c19::Ev>& out, void* key[2])
       if (g_cb[tok].catches) { try { sim_inv<B>(id, out, key); } catch (Abort&) {} }
       else sim_inv<B>(id, out, key);
     }
+    // the body's locals die before the interceptor converts the result
+    if (g_cb[tok].dtor_inv >= 0) { dtor_done = true; sim_inv<B>(g_cb[tok].dtor_inv, out, key); }
     if (g_abort_phase == P_RESULT && g_abort_at == tok && be::BT<B>::foreign) throw Abort{};
   } catch (Abort&) {
+    if (g_cb[tok].dtor_inv >= 0 && !dtor_done) sim_inv<B>(g_cb[tok].dtor_inv, out, key); // destructor runs while the abort unwinds
     out.push_back({ true, 1, "", key[s], sim_state(s) });
     throw;
   }
@@ -287,7 +299,7 @@ static void run_backend(mon::Rng& rng)
       g_abort_phase = P_NONE; g_abort_at = -1;
       one_run<B>(bn, key, true, rng);
       // one run per node and phase with an abort injected there
-      for (size_t id = 0; id < g_inv.size(); id++) { g_abort_phase = P_ARG; g_abort_at = id; one_run<B>(bn, key, be::BT<B>::foreign, rng); }
+      for (size_t id = 0; id < g_inv.size(); id++) { if (g_inv[id].dtor) continue; g_abort_phase = P_ARG; g_abort_at = id; one_run<B>(bn, key, be::BT<B>::foreign, rng); }
       for (size_t tok = 0; tok < g_cb.size(); tok++) {
         g_abort_phase = P_BODY; g_abort_at = tok; one_run<B>(bn, key, true, rng);
         g_abort_phase = P_RESULT; g_abort_at = tok; one_run<B>(bn, key, be::BT<B>::foreign, rng);
@@ -313,6 +325,7 @@ int main(int argc, char** argv)
   mon::hit("abort-injected-runs", n_abort_runs);
   mon::hit("timing-records-exact", n_timing_ok);
   mon::hit("aborts-caught-inside-a-callback-and-execution-continued", n_caught);
+  mon::hit("invocations-made-from-a-destructor-while-an-abort-unwinds", n_dtor_unwind);
   mon::extra_num("call_trees", n_trees);
   std::string cfg;
 #ifdef HOOK_IN
